@@ -41,6 +41,9 @@ func (e *errDisp) VarlinkDispatch(ctx context.Context, c varlink.Call, method st
 			return c.Reply(ctx, map[string]bool{"refused": true})
 		}
 		return nil
+	case "ErrValue":
+		// parameters handed to ReplyError as Go values of several shapes
+		return c.ReplyError(ctx, "t.e.V", c12GoValues()[in.Which])
 	case "Typed":
 		switch in.Which {
 		case "InterfaceNotFound":
@@ -54,6 +57,36 @@ func (e *errDisp) VarlinkDispatch(ctx context.Context, c varlink.Call, method st
 		}
 	}
 	return c.ReplyMethodNotFound(ctx, method)
+}
+
+type c12Quota struct {
+	Remaining int64  `json:"remaining"`
+	Unit      string `json:"unit"`
+	Hard      bool   `json:"hard"`
+}
+
+type c12Opt struct {
+	A *int64 `json:"a,omitempty"`
+	B string `json:"b,omitempty"`
+}
+
+var c12GoValueOrder = []string{"zero-struct", "ptr-zero-struct", "struct", "ptr-struct", "empty-map", "map", "omitempty-zero", "zero-inner", "raw-empty", "nil"}
+
+func c12GoValues() map[string]interface{} {
+	return map[string]interface{}{
+		"zero-struct":     c12Quota{},
+		"ptr-zero-struct": &c12Quota{},
+		"struct":          c12Quota{Remaining: 9007199254740993, Unit: "é", Hard: true},
+		"ptr-struct":      &c12Quota{Remaining: -1},
+		"empty-map":       map[string]int{},
+		"map":             map[string]interface{}{"k": []int{}, "z": 0, "s": "", "f": false},
+		"omitempty-zero":  c12Opt{},
+		"zero-inner":      struct {
+			Q c12Quota `json:"q"`
+		}{},
+		"raw-empty": json.RawMessage(`{}`),
+		"nil":       nil,
+	}
 }
 
 type c12Desc struct {
@@ -99,6 +132,12 @@ func c12Names(tier string) []string {
 		}
 	}
 	rec(nil)
+	// custom errors whose member is named like a standard error, below interfaces that resemble the reserved one
+	for _, pre := range []string{"org.varlink.resolver", "org.varlink", "io.kernel", "org.varlink.services", "org.varlink.service.service", "org.varlink.service.x", "com.example", "x", "service", "e"} {
+		for _, m := range []string{"InterfaceNotFound", "MethodNotFound", "MethodNotImplemented", "InvalidParameter"} {
+			out = append(out, pre+"."+m)
+		}
+	}
 	out = append(out, "org.varlink.service.InvalidParameter", "org.varlink.service.E", "org.varlink.servicex.E", "org.varlink.service.x.E", "x.org.varlink.service.E", "org.varlink.service", "org.varlink.serviceE",
 		"Org.varlink.service.E", "org.varlink.service .E", " org.varlink.service.E", "a b.c d", "x.E\x00", "\"x\".E", strings.Repeat("x.", 2000)+"E")
 	c12NamesCache[tier] = out
@@ -168,6 +207,32 @@ func c12Body(d c12Desc, tier string) func() {
 			return strings.TrimSuffix(string(c.Log[len(c.Log)-1]), "\x00")
 		}
 		if d.Kind == "typed" {
+			// Go values as error parameters: the wire carries their JSON encoding, also when every field is zero
+			for _, which := range c12GoValueOrder {
+				var out interface{}
+				err := conn.Call(live, "t.e.ErrValue", map[string]string{"which": which}, &out)
+				st.calls++
+				e, ok := err.(*varlink.Error)
+				if !ok || e.Name != "t.e.V" {
+					fail("ReplyError with a %s value: client got %T %v", which, err, err)
+					continue
+				}
+				raw, _ := e.Parameters.(*json.RawMessage)
+				if which == "nil" {
+					if raw != nil && string(*raw) != "null" {
+						fail("ReplyError with nil parameters arrived with %s", string(*raw))
+					}
+					continue
+				}
+				want, _ := json.Marshal(c12GoValues()[which])
+				if raw == nil || !rawJSONEqual(*raw, want) {
+					got := "<none>"
+					if raw != nil {
+						got = string(*raw)
+					}
+					fail("ReplyError with a %s value: parameters %s arrived as %s", which, string(want), got)
+				}
+			}
 			for _, which := range []string{"InterfaceNotFound", "MethodNotFound", "MethodNotImplemented", "InvalidParameter"} {
 				for _, arg := range []string{"", "a.b", "é\"\x00<&>", strings.Repeat("x", 5000)} {
 					nlog := len(c.Log)
